@@ -2,7 +2,7 @@
 
 use super::good_lp::{collect_good_lp_duals, solve_with_good_lp};
 use super::{LpSolution, SolverError, find_invalid_variables};
-use crate::math::VariableType;
+use crate::math::{OptimizationType, VariableType};
 use crate::transformers::LinearModel;
 use ::clarabel::solver::SolverStatus;
 use ::good_lp::SolutionWithDual;
@@ -65,6 +65,25 @@ pub fn solve_real_lp_problem_clarabel(lp: &LinearModel) -> Result<LpSolution<f64
                 solution.inner().status,
                 SolverStatus::DualInfeasible | SolverStatus::AlmostDualInfeasible
             ) {
+                // Dual infeasibility only says "infeasible or unbounded": decide which by
+                // solving the same rows and domains without an objective.
+                if !matches!(lp.optimization_type(), OptimizationType::Satisfy) {
+                    let (objective, _, offset, constraints, variables, domain) =
+                        lp.clone().into_parts();
+                    let feasibility = LinearModel::new_from_parts(
+                        objective,
+                        OptimizationType::Satisfy,
+                        offset,
+                        constraints,
+                        variables,
+                        domain,
+                    );
+                    if let Err(SolverError::Infeasible) =
+                        solve_real_lp_problem_clarabel(&feasibility)
+                    {
+                        return Err(SolverError::Infeasible);
+                    }
+                }
                 return Err(SolverError::Unbounded);
             }
             Ok(())
